@@ -1,8 +1,9 @@
 (* C07 — transfer-function estimates recover gain and phase with the right sign (statements only) *)
 From Coq Require Import ZArith List Bool Reals.
-From SK Require Import Arith Cpx KernelPrims Kernels KernelThms KernelThms2 GenRef AttrThms AttrThms3.
+From SK Require Import Arith Cpx KernelPrims Kernels KernelThms KernelThms2 GenRef AttrThms AttrThms3 KernelLin.
 From SK.gen Require Import AttrsGen KernelsGen.
 Import ListNotations.
+Close Scope Z_scope.
 Section C07.
 Variable angle : R * R -> R. Variable unwrap : R -> R.
 Notation F := (FR angle unwrap).
@@ -19,6 +20,20 @@ Theorem C07_segment_gain : forall (g : R) (X : R * R), pw_csd RA X ((g * fst X)%
 Proof. exact pw_csd_gain. Qed.
 Theorem C07_dft_linear : forall w g (v : Z -> R) L, dft_def w (fun n => (g * v n)%R) L = ((g * fst (dft_def w v L))%R, (g * snd (dft_def w v L))%R).
 Proof. exact dft_def_scale. Qed.
+(* second channel = g * first channel, any detrend mode: the regenerated kernels return YY = g^2 XX, XY = g XX (real) —
+   exactly the premises of C07_gain_recovered, so Hxy = g and coherence = 1 at every bin *)
+Theorem C07_gain_statistics_poly : forall g (x w : list R) starts L omega Q,
+  let '(MXX, MYY, mur, mui, M2) := gen_stats_poly_csd RA cos sin x (scaleL g x) starts L w omega Q in
+  (MYY = g * g * MXX /\ mur = g * MXX /\ mui = 0)%R.
+Proof. intros. rewrite Gen_poly_csd_ref. apply (gain_statistics _ _ (fun x => samp_poly RA x w Q L)). apply linear_samp_poly. Qed.
+Theorem C07_gain_statistics_detrend0 : forall g (x w : list R) starts L omega,
+  let '(MXX, MYY, mur, mui, M2) := gen_stats_detrend0_csd RA cos sin x (scaleL g x) starts L w omega in
+  (MYY = g * g * MXX /\ mur = g * MXX /\ mui = 0)%R.
+Proof. intros. rewrite Gen_detrend0_csd_ref. apply (gain_statistics _ _ (fun x => samp_mean0 RA x w L)). apply linear_samp_mean0. Qed.
+Theorem C07_gain_statistics_win : forall g (x w : list R) starts L omega,
+  let '(MXX, MYY, mur, mui, M2) := gen_stats_win_only_csd RA cos sin x (scaleL g x) starts L w omega in
+  (MYY = g * g * MXX /\ mur = g * MXX /\ mui = 0)%R.
+Proof. intros. rewrite Gen_win_only_csd_ref. apply (gain_statistics _ _ (fun x => samp_win RA x w)). apply linear_samp_win. Qed.
 (* whichever backend: the regenerated Numba and CUDA cross kernels and the NumPy model all equal the same definition (C01) *)
 Theorem C07_backends_agree_on_sign : forall (x1 x2 w : list R) starts L omega,
   gen_stats_win_only_csd RA cos sin x1 x2 starts L w omega = gen_stats_win_only_csd_cuda RA cos sin x1 x2 starts L w omega /\
@@ -31,4 +46,5 @@ Proof.
 Qed.
 End C07.
 Print Assumptions C07_gain_recovered.
+Print Assumptions C07_gain_statistics_poly.
 Print Assumptions C07_backends_agree_on_sign.
